@@ -126,7 +126,19 @@ func (a *Application) getProviderEndpoints(ctx context.Context, providerType str
 	providerProfile := a.createProviderProfile(providerType)
 	providerProfile.Path = pr.targetPath
 
-	providerEndpoints := a.filterEndpointsByProfile(endpoints, providerProfile, pr.requestLogger)
+	// A provider route must never leave its provider: the generic profile filter falls back to
+	// every endpoint when nothing is compatible, so narrow the pool to this provider's kind first
+	ofProvider := make([]*domain.Endpoint, 0, len(endpoints))
+	for _, endpoint := range endpoints {
+		if providerProfile.IsCompatibleWith(NormaliseProviderType(endpoint.Type)) {
+			ofProvider = append(ofProvider, endpoint)
+		}
+	}
+	if len(ofProvider) == 0 {
+		return ofProvider, nil
+	}
+
+	providerEndpoints := a.filterEndpointsByProfile(ofProvider, providerProfile, pr.requestLogger)
 
 	// If the request has specific requirements (e.g., needs vision support),
 	// apply those filters on top of the provider constraint
